@@ -1421,7 +1421,8 @@ def run(ctx):
     nontrivial |= run_bulk_correspondence(ctx, n_bulk)
 
     # ---------------- (b) differential
-    n_cases = (3000 if thorough else 110) * ctx.scale
+    # a case costs ~0.85 s since wave 3 (markup features, nested blocks, the history on one parser): 1800 keeps the thorough tier under 30 min
+    n_cases = (1800 if thorough else 110) * ctx.scale
     dist = {"valid": 0, "malformed": {}, "A_ok": 0, "A_err": 0, "instances": 0, "features": {}, "data_rows": {},
             "markup_kind": {}, "markup_column": {}, "markup_form": {},
             "histories_on_one_parser": {"run": 0, "calls": {}, "lengths": {}, "with_a_repeated_call": 0, "registry_changed_by_calls": 0}}
